@@ -177,6 +177,18 @@ theorem tie_readonly_steps :
     C07.merge_subtract = ["3:true"] ∧ C07.merge_append = ["2:-", "2:-", "2:-"] ∧
     C07.filter_append = ["3:-", "2:-"] := by decide
 
+/-- extension 4: WHICH fields the restore-state arithmetic reads (struct field names; local variables are `_`).
+    mergeReservationAllocations: the discount of an unmatched reservation is
+    `subtractAllocated(copyDeviceResources(alloc.allocatable), alloc.remained, true)` (`unmatchedDiscount`: allocatable −
+    REMAINED, non-negative), the matched side appends `.allocatable` / `.allocated` (`restore`); Filter and allocate start
+    their preemptible amounts from `mergedUnmatchedUsed` + the dry-run's `preemptibleDevices[node]` and add
+    `mergedMatchedAllocatable` only for the fall-back allocation (`cycViewR`). -/
+theorem tie_unmatched_discount :
+    C07.merge_subtract_operands = ["copyDeviceResources(allocatable),remained,true"] ∧
+    C07.merge_append_operands = ["_,_", "_,allocatable", "_,allocated"] ∧
+    C07.filter_append_operands = ["nil,mergedUnmatchedUsed,preemptibleDevices[]", "_,mergedMatchedAllocatable"] ∧
+    C07.allocate_append_operands = ["nil,mergedUnmatchedUsed,preemptibleDevices[]", "_,mergedMatchedAllocatable"] := by decide
+
 /-! ### the request-shape tables (Model/C07Shape.lean `convertNZ`) -/
 
 def sameSet (a b : List String) : Bool := a.length == b.length && a.all b.contains && b.all a.contains
